@@ -343,6 +343,12 @@ def directed(recvs, by_name, k):
     add_enum([{"ident": "Pairs", "style": "struct", "fields": pairs_fields()},
               {"ident": "Flat", "style": "struct", "fields": [F("solo", O(L("u8"))), F("rest", Rv(mode_holder), flatten=True, default=["trait"], post=[False, "cm_id"])]},
               {"ident": "Flat2", "style": "struct", "fields": [F("rest", Rv(deep), flatten=True, default=["trait"], post=[True, "ca_fail"])]}])
+    # a flatten member that is an ENUM: it takes exactly one of the unclaimed items (none: too few; more: too many, at the first
+    # surplus item), in a struct, under allow_unknown_fields-free and defaulted holders, and inside a struct variant
+    add_struct([F("width", O(L("u8"))), F("label", O(L("String"))), F("mode", Rv(mode), flatten=True)])
+    add_struct([F("width", L("u8")), F("mode", Rv(mode), flatten=True, default=["trait"])], rule="kebab-case")
+    add_enum([{"ident": "Plain", "style": "unit"},
+              {"ident": "Moded", "style": "struct", "fields": [F("level", O(L("u8"))), F("mode", Rv(mode), flatten=True)]}])
     # a variant that is both skipped and marked `word`: the bare word must not produce it
     add_enum([{"ident": "Gone", "style": "unit", "skip": True, "word": True}, {"ident": "Here", "style": "unit"},
               {"ident": "Held", "style": "newtype", "fields": [F("0", L("u8"))]}])
